@@ -122,17 +122,34 @@ theorem C06_post_DisjunctionToType (S S' : Schemas) (hf : FlatUnions S = true)
     (h : DisjunctionToType.run S = .ok S') : NoUnion S' = true :=
   post_DisjunctionToType S S' hf h
 
-/-- DisjunctionWithNullToOptional removes every two-branch `T | null` union of a flat input. -/
-theorem C06_post_DisjunctionWithNullToOptional (S S' : Schemas) (hf : FlatUnions S = true)
+/-- DisjunctionWithNullToOptional removes every two-branch `T | null` union of a flat input that
+    has no `null | null` union (`FlatUnionsN`; since /repo fix 30da046 that union is returned
+    unchanged instead of panicking, see `C06_nullNull_kept`). -/
+theorem C06_post_DisjunctionWithNullToOptional (S S' : Schemas) (hf : FlatUnionsN S = true)
     (h : DisjunctionWithNullToOptional.run S = .ok S') : NoNullPairUnion S' = true :=
   post_DisjunctionWithNullToOptional S S' hf h
 
+/-- `A = null | null`: kept by the current pass (a two-branch union with a null branch remains),
+    a panic before fix 30da046 -/
+theorem C06_nullNull_kept :
+    (match DisjunctionWithNullToOptional.run (Witness.schemas [Witness.obj "A" (Witness.union [Witness.null, Witness.null])]) with
+      | .ok S' => !NoNullPairUnion S' | _ => false) = true ∧
+    (match DisjunctionWithNullToOptional.runPreFix (Witness.schemas [Witness.obj "A" (Witness.union [Witness.null, Witness.null])]) with
+      | .panic _ => true | _ => false) = true := by
+  constructor <;> decide
+
 /-- SanitizeEnumMemberNames: when every enum is a named object (what AnonymousEnumToExplicitType,
-    which precedes it in the PHP chain, establishes), every member name is non-empty and does not
-    start with a sign afterwards. -/
-theorem C06_post_SanitizeEnumMemberNames (S S' : Schemas) (hn : EnumsNamed S = true)
+    which precedes it in the PHP chain, establishes) and no member name is empty, every member name
+    is non-empty and does not start with a sign afterwards.  (Since /repo fix aceba4d an empty name
+    is returned unchanged instead of panicking on `member.Name[0]`, hence `NonEmptyEnumNames`.) -/
+theorem C06_post_SanitizeEnumMemberNames (S S' : Schemas) (hn : EnumsNamed S = true) (hne : NonEmptyEnumNames S = true)
     (h : SanitizeEnumMemberNames.run S = .ok S') : EnumNames_php S' = true :=
-  post_SanitizeEnumMemberNames S S' hn h
+  post_SanitizeEnumMemberNames S S' hn hne h
+
+/-- … and for EVERY input whose enums are named objects, no member name starts with a sign. -/
+theorem C06_post_SanitizeEnumMemberNames_signFree (S S' : Schemas) (hn : EnumsNamed S = true)
+    (h : SanitizeEnumMemberNames.run S = .ok S') : EnumNames_signFree S' = true :=
+  post_SanitizeEnumMemberNames_signFree S S' hn h
 
 /-- non-vacuity of `FlatUnions`: a schema with unions at a field, in an array and in a map value -/
 example : let S := Witness.schemas [Witness.obj "A" (.struct [Witness.fld "f" (Witness.union [Witness.str, Witness.null]) false,
@@ -209,13 +226,15 @@ theorem keepsNames_sound (p : String → Bool) (x : PassId) (h : keepsNames x = 
   · exact keeps_DisjunctionInferMapping (qNames p) S S' hS hr
   · exact keeps_UndiscriminatedDisjunctionToAny (qNames p) (fun _ _ _ => rfl) S S' hS hr
 
-theorem EnumNames_php_iff (S : Schemas) : EnumNames_php S = true ↔ AllTop (qNames sanitised) S := by
-  simp [EnumNames_php, schemasAll_eq_AllObj, AllTop, satTop_qNames, sat_qNames]
+theorem EnumNames_signFree_iff (S : Schemas) : EnumNames_signFree S = true ↔ AllTop (qNames signFree) S := by
+  simp [EnumNames_signFree, schemasAll_eq_AllObj, AllTop, satTop_qNames, sat_qNames]
 
-/-- PHP: in the IR handed to InlineObjectsWithTypes every enum is a named object and every enum
-    member name is sanitised — for EVERY well-formed input. -/
+/-- PHP: in the IR handed to InlineObjectsWithTypes every enum is a named object and no enum member
+    name starts with a sign — for EVERY well-formed input.  (Non-emptiness of the names is no longer
+    guaranteed: since fix aceba4d an empty name, e.g. what AnonymousEnumToExplicitType makes of the
+    member `-`, passes SanitizeEnumMemberNames unchanged instead of panicking.) -/
 theorem C06_php_beforeInline (S S' : Schemas) (hw : wfIR S = true)
-    (h : chain phpChain.dropLast S = .ok S') : EnumsNamed S' = true ∧ EnumNames_php S' = true := by
+    (h : chain phpChain.dropLast S = .ok S') : EnumsNamed S' = true ∧ EnumNames_signFree S' = true := by
   have hsplit : phpChain.dropLast =
       (phpChain.dropLast.takeWhile (· != .sanitizeEnumMemberNames)) ++
       (phpChain.dropLast.dropWhile (· != .sanitizeEnumMemberNames)) := (List.takeWhile_append_dropWhile ..).symm
@@ -231,11 +250,11 @@ theorem C06_php_beforeInline (S S' : Schemas) (hw : wfIR S = true)
   · rw [EnumsNamed_iff]
     exact runChain_keeps _ (fun p hp => keepsShape_sound qNoEnum qNoEnum_shape p
       (by revert p; decide)) S1 S' hS1 h2
-  · rw [EnumNames_php_iff]
-    exact chain_via (H := AllTop qNoEnum) (Q := AllTop (qNames sanitised)) .sanitizeEnumMemberNames
+  · rw [EnumNames_signFree_iff]
+    exact chain_via (H := AllTop qNoEnum) (Q := AllTop (qNames signFree)) .sanitizeEnumMemberNames
       (fun _ => false) keepsNames _ (by simp)
-      (fun S S' hH hr => (EnumNames_php_iff S').1 (post_SanitizeEnumMemberNames S S' ((EnumsNamed_iff S).2 hH) hr))
-      (keepsNames_sound sanitised) (by decide) S1 S' hS1 h2
+      (fun S S' hH hr => (EnumNames_signFree_iff S').1 (post_SanitizeEnumMemberNames_signFree S S' ((EnumsNamed_iff S).2 hH) hr))
+      (keepsNames_sound signFree) (by decide) S1 S' hS1 h2
 
 /-! ## Python -/
 
